@@ -237,8 +237,14 @@ class Denoter:
         elif kind == "gat":
             m = self.env.gateaux[p[1]]
             cd = self.env.gateaux_cd.get(p[1], {})
-            if t in m:
-                eps = self.pure_derivative(m[t], comp, derivs, rest, side)
+            d = m.get(t)
+            if isinstance(d, dict):  # per-component directions {comp: scalar expr}
+                d = d.get(tuple(comp))
+                dcomp = ()
+            else:
+                dcomp = comp
+            if d is not None:
+                eps = self.pure_derivative(d, dcomp, derivs, rest, side)
             elif t in cd:
                 eps = cd[t](self, comp, derivs, rest, side)
             else:
